@@ -1027,7 +1027,7 @@ Section PullDown.
   Hypothesis HO_leaf : forall r o h, V r o h true -> ~ inReg r o -> V' r o h true.
   Hypothesis HDel_leaf : forall r o h, V r o h true -> inDel r o -> ~ In h R.
   Hypothesis HXn_inner : forall r o h, Xn r o -> V r o h true -> False.
-  Hypothesis HXn_inner' : forall r o h, Xn r o -> V' r o h true -> False.
+  Hypothesis HXn_inner' : forall r o h, Xn r o -> ~ inReg r o -> V' r o h true -> False.
   Hypothesis HRT_out : forall r o, ~ inReg r o -> RT' r o -> RT r o.
   Hypothesis HRT_P : RT' (S rd) q -> RT (S rd) q \/ forall h l, ~ V (S rd) q h l.
   Hypothesis HRT_sub : forall r o, (r < rd)%nat -> inSub r o -> ~ RT' (S r) (upo r o).
@@ -1148,7 +1148,7 @@ Section PullDown.
         apply (Hsep _ _ _ (HS_up _ _ _ _ Hv)). apply (w_cR W'). exact Hk.
       + destruct (w_cpos W' _ _ Hin0) as (r1 & o1 & Hv & ->). exists r1, o1. split; [|reflexivity].
         assert (HhR : In h R) by (apply (w_cR W'); apply in_map_iff; exists (h, gp T r1 o1); auto).
-        destruct (inReg_dec r1 o1) as [Hreg|Hout]; [exfalso|destruct (HO_ul _ _ _ _ Hv Hout) as [A|A]; [exact A|destruct (HXn_inner' _ _ _ A Hv)]].
+        destruct (inReg_dec r1 o1) as [Hreg|Hout]; [exfalso|destruct (HO_ul _ _ _ _ Hv Hout) as [A|A]; [exact A|destruct (HXn_inner' _ _ _ A Hout Hv)]].
         destruct (HU_reg _ _ _ _ Hv Hreg) as (r & o & Hs & -> & ->).
         pose proof (HS_in _ _ _ _ Hs) as Hs'.
         apply (Hno r o true (proj1 Hs') Hs').
@@ -1256,6 +1256,119 @@ Section PullDown.
     - intros r o Hreg Hns. apply (regG_cases T rd od HT Hrd Hod) in Hreg as [[-> ->]|[A|A]]; [|contradiction|].
       + rewrite (pc_out C); [exact HP0|]. intros r o Hr Hreg. exact (HPne r o Hr Hreg).
       + exact (pc_del C A).
+  Qed.
+
+  (** ** [placeEmptyRoot], then the node on the parent position is moved down to the sibling
+         ([undoDeletion]) *)
+  Definition pmove (st1 : maps H) : maps H :=
+    match nodes_get (fst st1) (gp T (S rd) q) with
+    | Some v =>
+        (nodes_put (gp T rd sbo) (fst v, if cached_has HO (snd st1) (fst v) || full then true else snd v)
+                   (nodes_del (gp T (S rd) q) (fst st1)),
+         if cached_has HO (snd st1) (fst v) then cached_put HO (fst v) (gp T rd sbo) (snd st1) else snd st1)
+    | None => st1
+    end.
+
+  Theorem pullB : ~ X (S rd) q ->
+    exists st1, placeEmptyRoot HO T full (gp T rd od) (nd0, ca0) = (st1, true) /\
+      WInvX V RT R T (fun r o => X r o \/ Xn r o \/ inDel r o) (fst (pmove st1)) (snd (pmove st1)).
+  Proof.
+    intros HnXP.
+    destruct (placeEmptyRoot_coords H HO HOK full T rd od HT Hrd Hod nd0 ca0) as ([nd1 ca1] & E & C).
+    { intros r o v Hr1 Hr Hreg Ev. destruct (reg_stored r o v Hreg Hr Ev) as (r1 & o1 & l & Hs & _).
+      exact (Hne_sub _ _ _ _ Hs). }
+    { intros o Hreg. destruct (nodes_get nd0 (gp T 0 o)) as [v|] eqn:Ev; [exfalso|reflexivity].
+      destruct (reg_stored 0%nat o v Hreg ltac:(lia) Ev) as (r1 & o1 & l & _ & Er & _). lia. }
+    cbn [fst snd] in C. exists (nd1, ca1). split; [exact E|].
+    assert (EP : upo rd sbo = q) by apply upo_root.
+    destruct (regG_valid T rd od HT Hrd Hod _ _ (P_reg T rd od HT Hrd Hod)) as [VP1 VP2].
+    assert (Hsr : inSub rd sbo) by (apply (sub_root T rd od HT Hrd Hod); reflexivity).
+    destruct (sub_valid rd sbo Hsr) as [VS1 VS2].
+    assert (HPne : forall r o, (r <= rd)%nat -> inReg r o -> gp T (S rd) q <> gp T r o).
+    { intros r o Hr Hreg Ep. destruct (regG_valid T rd od HT Hrd Hod r o Hreg) as [A B].
+      destruct (gp_inj T _ _ _ _ VP1 VP2 A B Ep) as [Er _]. lia. }
+    assert (E1P : nodes_get nd1 (gp T (S rd) q) = nodes_get nd0 (gp T (S rd) q)).
+    { apply (pc_out C). intros r o Hr Hreg. exact (HPne r o Hr Hreg). }
+    assert (Hadj : forall v, adjv H HO full ca1 v = adjv H HO full ca0 v).
+    { intros v. apply (adjv_ext H HO HOK full). exact (pc_keys C). }
+    assert (Hhas : forall h, cached_has HO ca1 h = true <-> In h (map fst ca0)).
+    { intros h. rewrite (cached_has_true H HO HOK). apply (pc_keys C). }
+    unfold pmove. cbn [fst snd]. rewrite E1P.
+    assert (Hcase : {vP | nodes_get nd0 (gp T (S rd) q) = Some vP} + {nodes_get nd0 (gp T (S rd) q) = None}).
+    { destruct (nodes_get nd0 (gp T (S rd) q)) as [vP|]; [left; exists vP; reflexivity|right; reflexivity]. }
+    destruct Hcase as [[vP EvP]|EvP]; rewrite EvP; cbn [fst snd].
+    - (* the parent position is stored: it moves to the position of the sibling *)
+      set (nd2 := nodes_put (gp T rd sbo) (fst vP, if cached_has HO ca1 (fst vP) || full then true else snd vP)
+                            (nodes_del (gp T (S rd) q) nd1)).
+      set (ca2 := if cached_has HO ca1 (fst vP) then cached_put HO (fst vP) (gp T rd sbo) ca1 else ca1).
+      assert (Eg : forall p, nodes_get nd2 p = if p =? gp T rd sbo then Some (adjv H HO full ca0 vP)
+                                               else if p =? gp T (S rd) q then None else nodes_get nd1 p).
+      { intros p. unfold nd2. rewrite nodes_get_put, nodes_get_del. destruct (p =? gp T rd sbo); [|reflexivity].
+        f_equal. rewrite <- Hadj. reflexivity. }
+      assert (Hsne : forall r o, (r < rd)%nat -> inSub r o -> gp T r o <> gp T rd sbo /\ gp T r o <> gp T (S rd) q).
+      { intros r o Hr Hs. destruct (sub_valid r o Hs) as [A B]. split; intros Ep.
+        - destruct (gp_inj T _ _ _ _ A B VS1 VS2 Ep). lia.
+        - destruct (gp_inj T _ _ _ _ A B VP1 VP2 Ep). lia. }
+      apply pulldown_WInvX.
+      + unfold nd2. apply NoDup_nodes_put, NoDup_nodes_del, (pc_nodup C (w_nodup W')).
+      + intros r o Hr Hs. rewrite Eg. destruct (Nat.eq_dec r rd) as [->|Hne].
+        * apply (sub_root T rd od HT Hrd Hod) in Hs. subst o. rewrite N.eqb_refl, EP, EvP. reflexivity.
+        * destruct (Hsne r o ltac:(lia) Hs) as [A B].
+          destruct (N.eqb_spec (gp T r o) (gp T rd sbo)); [contradiction|].
+          destruct (N.eqb_spec (gp T r o) (gp T (S rd) q)); [contradiction|].
+          apply (pc_sub C); [lia|exact Hs].
+      + intros p v Ev. rewrite Eg in Ev. destruct (N.eqb_spec p (gp T rd sbo)) as [->|Hn1].
+        * left. exists rd, sbo. split; [lia|]. split; [exact Hsr|]. split; [reflexivity|]. rewrite EP, EvP. exact Ev.
+        * destruct (N.eqb_spec p (gp T (S rd) q)) as [->|Hn2]; [discriminate|].
+          destruct (pc_back C p Ev) as [(r & o & Hr & Hs & Ep & Ea)|[E0 Hno]].
+          -- left. exists r, o. split; [lia|auto].
+          -- right. split; [exact E0|]. intros r o Hreg Ep. destruct (Nat.eq_dec r (S rd)) as [->|Hne].
+             ++ apply (regG_cases T rd od HT Hrd Hod) in Hreg as [[_ ->]|[[A _]|[A _]]]; [|lia|lia]. contradiction.
+             ++ apply (Hno r o); [destruct Hreg; lia|exact Hreg|exact Ep].
+      + intros p Hp. rewrite Eg.
+        destruct (N.eqb_spec p (gp T rd sbo)) as [->|_]; [exfalso; exact (Hp _ _ (sub_reg T rd od HT Hrd Hod _ _ Hsr) eq_refl)|].
+        destruct (N.eqb_spec p (gp T (S rd) q)) as [->|_]; [exfalso; exact (Hp _ _ (P_reg T rd od HT Hrd Hod) eq_refl)|].
+        apply (pc_out C). intros r o _ Hreg. exact (Hp r o Hreg).
+      + intros h. unfold ca2. destruct (cached_has HO ca1 (fst vP)) eqn:Eh; [|exact (pc_keys C h)].
+        rewrite (keys_cached_put H HO HOK), (pc_keys C h). apply Hhas in Eh. split; [intros [->|A]; assumption|auto].
+      + intros h p Hin. unfold ca2 in Hin. destruct (cached_has HO ca1 (fst vP)) eqn:Eh.
+        * apply (In_cached_put H HO HOK) in Hin as [[-> ->]|[Hne Hin]].
+          -- left. exists rd, sbo, (snd vP). split; [lia|]. split; [exact Hsr|]. rewrite EP, EvP.
+             split; [destruct vP; reflexivity|]. split; [reflexivity|apply Hhas, Eh].
+          -- destruct (pc_ca C h p Hin) as [(r & o & fl & Hr & Hs & E0 & Ep & Hk)|[Hin0 Hno]].
+             ++ left. exists r, o, fl. split; [lia|auto].
+             ++ right. split; [exact Hin0|]. intros r o fl Hr Hs. destruct (Nat.eq_dec r rd) as [->|Hne'].
+                ** apply (sub_root T rd od HT Hrd Hod) in Hs. subst o. rewrite EP, EvP. intros Ev. apply Hne.
+                   injection Ev as Ev. rewrite Ev. reflexivity.
+                ** apply Hno; [lia|exact Hs].
+        * destruct (pc_ca C h p Hin) as [(r & o & fl & Hr & Hs & E0 & Ep & Hk)|[Hin0 Hno]].
+          -- left. exists r, o, fl. split; [lia|auto].
+          -- right. split; [exact Hin0|]. intros r o fl Hr Hs. destruct (Nat.eq_dec r rd) as [->|Hne'].
+             ++ apply (sub_root T rd od HT Hrd Hod) in Hs. subst o. rewrite EP, EvP. intros Ev.
+                assert (Hk : In h (map fst ca0)) by (apply in_map_iff; exists (h, p); auto).
+                apply Hhas in Hk. injection Ev as Ev. rewrite Ev in Eh. cbn [fst] in Eh. congruence.
+             ++ apply Hno; [lia|exact Hs].
+    - (* nothing on the parent position *)
+      assert (F_sub : forall r o, (r <= rd)%nat -> inSub r o ->
+                nodes_get nd1 (gp T r o) = adj0 (nodes_get nd0 (gp T (S r) (upo r o)))).
+      { intros r o Hr Hs. destruct (Nat.eq_dec r rd) as [->|Hne]; [|apply (pc_sub C); [lia|exact Hs]].
+        apply (sub_root T rd od HT Hrd Hod) in Hs. subst o. rewrite EP, EvP. exact (pc_sibroot C). }
+      apply pulldown_WInvX.
+      + exact (pc_nodup C (w_nodup W')).
+      + exact F_sub.
+      + intros p v Ev. destruct (pc_back C p Ev) as [(r & o & Hr & Hs & Ep & Ea)|[E0 Hno]].
+        * left. exists r, o. split; [lia|auto].
+        * right. split; [exact E0|]. intros r o Hreg Ep. destruct (Nat.eq_dec r (S rd)) as [->|Hne].
+          -- apply (regG_cases T rd od HT Hrd Hod) in Hreg as [[_ ->]|[[A _]|[A _]]]; [|lia|lia].
+             rewrite Ep, EvP in E0. discriminate.
+          -- apply (Hno r o); [destruct Hreg; lia|exact Hreg|exact Ep].
+      + intros p Hp. apply (pc_out C). intros r o _ Hreg. exact (Hp r o Hreg).
+      + exact (pc_keys C).
+      + intros h p Hin. destruct (pc_ca C h p Hin) as [(r & o & fl & Hr & Hs & E0 & Ep & Hk)|[Hin0 Hno]].
+        * left. exists r, o, fl. split; [lia|auto].
+        * right. split; [exact Hin0|]. intros r o fl Hr Hs. destruct (Nat.eq_dec r rd) as [->|Hne].
+          -- apply (sub_root T rd od HT Hrd Hod) in Hs. subst o. rewrite EP, EvP. discriminate.
+          -- apply Hno; [lia|exact Hs].
   Qed.
 End PullDown.
 (** * Part 6: a node of the view that is exempt and not stored is dropped from the view *)
@@ -2732,6 +2845,463 @@ Section ModifyUndo.
     split; [congruence|]. split; [lia|congruence].
   Qed.
 End ModifyUndo.
+(** * Part 15: the layout after the deletion of a subtree, conversely *)
+Lemma under_iff_range R c r o : MapMutRemove.under (R, c) (r, o) <->
+  (r <= R)%nat /\ c * p2 (R - r) <= o < (c + 1) * p2 (R - r).
+Proof.
+  unfold MapMutRemove.under. cbn [fst snd]. pose proof (p2_pos (R - r)) as Hp. split.
+  - intros [Hr E]. split; [exact Hr|]. pose proof (N.div_mod' o (p2 (R - r))) as Hdm.
+    pose proof (N.mod_lt o (p2 (R - r)) ltac:(lia)). rewrite E in Hdm. nia.
+  - intros [Hr Ho]. split; [exact Hr|]. symmetry. apply (N.div_unique o (p2 (R - r)) c (o - c * p2 (R - r))); lia.
+Qed.
+
+Lemma inSubG_under rd od r o : inSubG rd od r o <-> MapMutRemove.under (rd, N.lxor od 1) (r, o).
+Proof. rewrite under_iff_range. reflexivity. Qed.
+Lemma inDelG_under rd od r o : inDelG rd od r o <-> MapMutRemove.under (rd, od) (r, o).
+Proof. rewrite under_iff_range. reflexivity. Qed.
+Lemma inRegG_under rd od r o : inRegG rd od r o <-> MapMutRemove.under (S rd, od / 2) (r, o).
+Proof. rewrite under_iff_range. reflexivity. Qed.
+
+Section LeafBelow.
+  Variable H : Type.
+  Variable HO : ops H.
+  Notation under := MapMutRemove.under.
+
+  (** every node that is no empty root has a leaf below it *)
+  Lemma leaf_below (s : slots H) : forall k (y : node H), nrow y = k -> In y (layout HO s) ->
+    (exists z, In z (layout HO s) /\ nleaf z = true /\ under (coord y) (coord z)) \/
+    (nroot y = true /\ nleaf y = false /\ nhash y = op_empty HO).
+  Proof.
+    induction k as [k IH] using lt_wf_ind. intros y Ek Hy.
+    destruct (node_cases H HO s _ _ y (tnode_in H HO s y Hy))
+      as [r' xl xr _ Er Hxl _ _ _ _ Hrl _|Ly _ _|Hr Hl He _ _ _].
+    - apply tnode_some in Hxl as (Hxlin & Exr & Exo).
+      destruct (IH r' ltac:(lia) xl Exr Hxlin) as [(z & Hz & Lz & Uz)|(C & _)]; [|congruence].
+      left. exists z. split; [exact Hz|]. split; [exact Lz|].
+      apply (MapMutRemove.under_trans _ (coord xl)); [|exact Uz].
+      unfold coord. rewrite Exr, Exo, Er. split; [cbn; lia|]. cbn [fst snd].
+      replace (S r' - r')%nat with 1%nat by lia. change (p2 1) with 2. apply pps_div2_double.
+    - left. exists y. split; [exact Hy|]. split; [exact Ly|apply MapMutRemove.under_refl].
+    - right. auto.
+  Qed.
+End LeafBelow.
+Section KillConv.
+  Variable H : Type.
+  Variable HO : ops H.
+  Hypothesis HOK : ops_ok HO.
+  Variable s : slots H.
+  Variable L : list H.
+  Variable x : node H.
+  Variable T : N.
+  Hypothesis Hn63 : N.of_nat (length s) <= 2 ^ 63.
+  Hypothesis HTlo : TreeRows (N.of_nat (length s)) <= T.
+  Hypothesis HT63 : T <= 63.
+  Hypothesis Hnd : NoDup (live s).
+  Hypothesis Hx : In x (layout HO s).
+  Hypothesis Hdel : forall y, In y (layout HO s) -> nleaf y = true ->
+    (memH HO (nhash y) L = true <-> MapMutRemove.under (coord x) (coord y)).
+  Hypothesis Hroot : nroot x = false.
+  Notation under := MapMutRemove.under.
+  Notation lay := (layout HO s).
+  Notation lay' := (layout HO (kill HO L s)).
+  Notation rd := (nrow x).
+  Notation od := (noff x).
+  Notation Pc := (S (nrow x), noff x / 2).
+  Notation sbc := (nrow x, N.lxor (noff x) 1).
+  Notation bb := (Nat.eqb (S (nrow x)) (ntree x)).
+  Notation upn := (MapMutRemove.upn H).
+
+  Lemma len_kill : length (kill HO L s) = length s.
+  Proof. unfold kill. apply map_length. Qed.
+
+  Lemma KI y : In y lay ->
+    (~ under Pc (coord y) -> ~ under (coord y) Pc -> In y lay') /\
+    (under sbc (coord y) -> In (upn rd bb y) lay') /\
+    (under (coord y) Pc -> coord y <> Pc -> exists h', In (MapMutRemove.sethash H y h') lay').
+  Proof. exact (MapMutRemove.kill_inner H HO s L x Hx Hdel Hroot y). Qed.
+
+  Lemma coord_upn y : coord (upn rd bb y) = (S (nrow y), rmbit (noff y) (N.of_nat (rd - nrow y))).
+  Proof. reflexivity. Qed.
+
+  Lemma rmbit_div_pow o : forall k b, N.of_nat k <= b -> rmbit o b / 2 ^ N.of_nat k = rmbit (o / 2 ^ N.of_nat k) (b - N.of_nat k).
+  Proof.
+    induction k as [|k IH]; intros b Hb.
+    - change (N.of_nat 0) with 0. rewrite N.pow_0_r, !N.div_1_r, N.sub_0_r. reflexivity.
+    - replace (N.of_nat (S k)) with (N.of_nat k + 1) by lia. rewrite UtilsGeom.pow2_S.
+      replace (2 * 2 ^ N.of_nat k) with (2 ^ N.of_nat k * 2) by lia.
+      rewrite <- !N.div_div by (try apply pow2_nz; lia). rewrite (IH b ltac:(lia)).
+      rewrite rmbit_div2 by lia. f_equal. lia.
+  Qed.
+
+  (** the leaves after the deletion are the leaves that were not deleted, where they were or
+      one row higher *)
+  Lemma img_leaf z' : In z' lay' -> nleaf z' = true ->
+    exists z, In z lay /\ nleaf z = true /\
+      ((under sbc (coord z) /\ z' = upn rd bb z) \/
+       (~ under Pc (coord z) /\ ~ under (coord z) Pc /\ z' = z)).
+  Proof.
+    intros Hz' Lz'. pose proof (layout_leaf_live H HO _ z' Hz' Lz') as Hl.
+    apply MapMutRemove.kill_live in Hl as [Hl Hm].
+    destruct (live_leaf_in_layout H HO s _ Hl) as (z & Hz & Lz & Ez). rewrite <- Ez in Hm.
+    assert (Hnx : ~ under (coord x) (coord z)).
+    { intros Ux. apply (Hdel z Hz Lz) in Ux. congruence. }
+    pose proof (MapMutRemove.kill_nodup H HO L s Hnd) as Hnd'.
+    destruct (MapMutRemove.ng_family H HO s x Hx Hroot) as (p & sbn & Hp & Hsbn & _ & Hpl & _ & Ep & _).
+    destruct (KI z Hz) as (K1 & K2 & _).
+    exists z. split; [exact Hz|]. split; [exact Lz|].
+    destruct (MapMutRemove.under_dec Pc (coord z)) as [UP|NP].
+    - left. assert (Hne : coord z <> Pc).
+      { intros C. rewrite <- Ep in C. rewrite (MapMutRemove.ng_coord_eq H HO s z p Hz Hp C) in Lz. congruence. }
+      destruct (MapMutRemove.under_P_split _ _ _ UP Hne) as [Ux|Us]; [destruct (Hnx Ux)|].
+      split; [exact Us|].
+      apply (live_leaf_unique H HO _ _ _ Hnd' Hz' (K2 Us) Lz' Lz). cbn. congruence.
+    - right. split; [exact NP|].
+      assert (NP2 : ~ under (coord z) Pc).
+      { intros U. rewrite <- Ep in U.
+        rewrite (MapMutRemove.ng_leaf_bottom H HO s T Hn63 HTlo HT63 z p Hz Hp Lz U) in Hpl. congruence. }
+      split; [exact NP2|].
+      apply (live_leaf_unique H HO _ _ _ Hnd' Hz' (K1 NP NP2) Lz' Lz). congruence.
+  Qed.
+
+  Lemma anc_under r o k : under ((r + k)%nat, o / 2 ^ N.of_nat k) (r, o).
+  Proof. split; [cbn; lia|]. cbn [fst snd]. replace (r + k - r)%nat with k by lia. reflexivity. Qed.
+
+  (** every node after the deletion is the image of a node before, or lies above the parent *)
+  Theorem kill_inner_conv y' : In y' lay' ->
+    (exists y, In y lay /\ y' = y /\ ~ under Pc (coord y) /\ ~ under (coord y) Pc) \/
+    (exists y, In y lay /\ under sbc (coord y) /\ y' = upn rd bb y) \/
+    (under (coord y') Pc /\ coord y' <> Pc).
+  Proof.
+    intros Hy'.
+    assert (Hn63' : N.of_nat (length (kill HO L s)) <= 2 ^ 63) by (rewrite len_kill; exact Hn63).
+    assert (HTlo' : TreeRows (N.of_nat (length (kill HO L s))) <= T) by (rewrite len_kill; exact HTlo).
+    destruct (MapMutRemove.ng_family H HO s x Hx Hroot) as (p & sbn & Hp & Hsbn & Hsr & Hpl & Es & Ep & Etp & Ets & _).
+    assert (Hrdt : (rd < ntree x)%nat) by (apply (nonroot_iff_row H HO s Hn63 x Hx); exact Hroot).
+    (* a node of the old layout at the coordinate of [y'] that is not below the parent *)
+    assert (Hold : forall y, In y lay -> coord y = coord y' -> ~ under Pc (coord y) ->
+              (exists y0, In y0 lay /\ y' = y0 /\ ~ under Pc (coord y0) /\ ~ under (coord y0) Pc) \/
+              (under (coord y') Pc /\ coord y' <> Pc)).
+    { intros y Hy Ec NP. destruct (MapMutRemove.under_dec (coord y) Pc) as [U|NU].
+      - right. rewrite <- Ec. split; [exact U|]. intros C. apply NP. rewrite C. apply MapMutRemove.under_refl.
+      - left. exists y. split; [exact Hy|]. split; [|auto].
+        apply (MapMutRemove.ng_coord_eq H HO _ y' y Hy' (proj1 (KI y Hy) NP NU)). congruence. }
+    destruct (leaf_below H HO (kill HO L s) (nrow y') y' eq_refl Hy') as [(z' & Hz' & Lz' & Uz')|(Hr' & _)].
+    - destruct (img_leaf z' Hz' Lz') as (z & Hz & Lz & [[Us ->]|(NP & NP2 & ->)]).
+      + (* the leaf below [y'] is the image of a leaf below the sibling *)
+        rewrite coord_upn in Uz'. destruct Uz' as [Hr Eo]. unfold coord in Hr, Eo. cbn [fst snd] in Hr, Eo.
+        pose proof Us as [Hzr _]. unfold coord in Hzr. cbn [fst] in Hzr.
+        assert (Etz : ntree z = ntree x).
+        { rewrite <- Ets. apply (MapMutRemove.ng_same_tree H HO s sbn z Hsbn Hz). rewrite Es. exact Us. }
+        destruct (le_gt_dec (nrow y') (S rd)) as [Hle|Hgt].
+        * right. left. set (k := (nrow y' - S (nrow z))%nat).
+          destruct (MapMutRemove.ng_ancestor H HO s T Hn63 HTlo HT63 z Hz k ltac:(unfold k; lia))
+            as (y & Hy & Ecy & _).
+          assert (Uy : under sbc (coord y)).
+          { apply (MapMutRemove.under_nested (coord y) sbc (coord z)); [rewrite Ecy; apply anc_under|exact Us|].
+            rewrite Ecy. cbn [fst]. unfold k. lia. }
+          exists y. split; [exact Hy|]. split; [exact Uy|].
+          apply (MapMutRemove.ng_coord_eq H HO _ y' _ Hy' (proj1 (proj2 (KI y Hy)) Uy)).
+          rewrite coord_upn. injection Ecy as Er Eoy. unfold coord. rewrite Er, Eoy. f_equal; [unfold k; lia|].
+          rewrite <- Eo. replace (nrow y' - S (nrow z))%nat with k by reflexivity. unfold p2.
+          rewrite rmbit_div_pow by (unfold k; lia). f_equal. clearbody k. clear. lia.
+        * right. right. split; [|intros C; injection C as C _; lia].
+          apply (MapMutRemove.under_nested Pc (coord y') (S (nrow z), rmbit (noff z) (N.of_nat (rd - nrow z)))).
+          -- apply inRegG_under. replace (N.of_nat (rd - nrow z)) with (N.of_nat rd - N.of_nat (nrow z)) by lia.
+             destruct (MapMutRemove.ng_valid H HO s T Hn63 HTlo HT63 x Hx) as [_ Vo].
+             destruct (MapMutRemove.ng_valid H HO s T Hn63 HTlo HT63 p Hp) as [Vp _].
+             assert (Epr : nrow p = S rd) by (injection Ep as A _; exact A).
+             apply (upo_reg T rd od HT63 ltac:(lia) Vo). apply inSubG_under. exact Us.
+          -- split; [exact Hr|exact Eo].
+          -- unfold coord. cbn [fst]. lia.
+      + (* the leaf below [y'] has not moved *)
+        destruct Uz' as [Hr Eo]. unfold coord in Hr, Eo. cbn [fst snd] in Hr, Eo.
+        set (k := (nrow y' - nrow z)%nat).
+        assert (Ht : (nrow y' <= ntree z)%nat).
+        { pose proof (node_row_le_tree H HO _ y' Hy').
+          rewrite (MapMutRemove.ng_same_tree H HO _ y' z Hy' Hz' (conj Hr Eo)). exact H0. }
+        destruct (MapMutRemove.ng_ancestor H HO s T Hn63 HTlo HT63 z Hz k ltac:(unfold k; lia)) as (y & Hy & Ecy & _).
+        assert (Ec : coord y = coord y').
+        { rewrite Ecy. unfold coord. f_equal; [unfold k; lia|]. rewrite <- Eo. reflexivity. }
+        destruct (Hold y Hy Ec) as [A|C]; [|left; exact A|right; right; exact C].
+        intros U. apply NP. apply (MapMutRemove.under_trans _ (coord y)); [exact U|]. rewrite Ecy. apply anc_under.
+    - (* a root *)
+      destruct (MapMutRemove.kill_roots H HO L s y' Hy' Hr') as (y & Hy & Hry & Ec).
+      destruct (MapMutRemove.under_dec Pc (coord y)) as [UP|NP].
+      + destruct (MapMutRemove.under_dec (coord y) Pc) as [U2|N2].
+        * (* the parent is a root: the sibling has moved there *)
+          right. left. exists sbn. split; [exact Hsbn|]. rewrite Es. split; [apply MapMutRemove.under_refl|].
+          assert (Ecy : coord y = Pc) by (symmetry; exact (MapMutRemove.under_antisym _ _ UP U2)).
+          apply (MapMutRemove.ng_coord_eq H HO _ y' _ Hy').
+          { pose proof (proj1 (proj2 (KI sbn Hsbn))) as K2. rewrite Es in K2. exact (K2 (MapMutRemove.under_refl _)). }
+          rewrite <- Ec, Ecy, coord_upn. injection Es as Esr Eso. rewrite Esr, Eso, Nat.sub_diag.
+          change (N.of_nat 0) with 0. rewrite rmbit_0. f_equal. symmetry. apply lxor1_div2.
+        * exfalso. assert (Hne : coord y <> Pc).
+          { intros C. apply N2. rewrite C. apply MapMutRemove.under_refl. }
+          destruct (MapMutRemove.under_P_split _ _ _ UP Hne) as [Ux|Us].
+          -- exact (MapMutRemove.ng_root_top H HO s T Hn63 HTlo HT63 x y Hx Hy Hroot Hry Ux).
+          -- rewrite <- Es in Us. exact (MapMutRemove.ng_root_top H HO s T Hn63 HTlo HT63 sbn y Hsbn Hy Hsr Hry Us).
+      + destruct (Hold y Hy Ec NP) as [A|C]; [left; exact A|right; right; exact C].
+  Qed.
+End KillConv.
+(** * Part 16: one step of [undoDeletion]: the subtree below a node that is no root comes back *)
+Section LayKinds.
+  Variable H : Type.
+  Variable HO : ops H.
+  Hypothesis HOK : ops_ok HO.
+
+  Lemma Vlay_kind (s : slots H) r o h l : Vlay HO s r o h l ->
+    (l = true /\ In (Some h) s) \/
+    (l = false /\ (h = op_empty HO \/ exists x y, h = op_hash2 HO x y)).
+  Proof.
+    intros Hv. apply Vlay_Vent in Hv.
+    apply (Vent_kind H HO (forest HO s) (fun x => In (Some x) s) r o h l); [|exact Hv].
+    intros k lo c He. pose proof (forest_entry H HO s _ _ _ He) as (_ & _ & _ & _ & _ & Et). symmetry in Et.
+    split; [exact (proj1 (compress_wf H HO _ _ _ Et))|]. intros x Hx.
+    exact (StumpAddData.forest_leaves_live H HO s (k, lo, Some c) c x He eq_refl Hx).
+  Qed.
+
+  Lemma Vlay_sep (s : slots H) (R : list H) r o h : leaves_ok H HO s -> (forall x, In x R -> In (Some x) s) ->
+    Vlay HO s r o h false -> ~ In h R.
+  Proof.
+    intros Hlv HR Hv Hin. destruct (Vlay_kind s r o h false Hv) as [[C _]|[_ [A|(x & y & A)]]]; [discriminate| |].
+    - destruct (Hlv _ (HR _ Hin)) as [B _]. subst h. rewrite (Heqb_refl H HO HOK) in B. discriminate.
+    - destruct (Hlv _ (HR _ Hin)) as [_ B]. exact (B x y A).
+  Qed.
+
+  Lemma Vlay_bound (s : slots H) r o h l : Vlay HO s r o h l -> (o + 1) * p2 r <= N.of_nat (length s).
+  Proof.
+    intros Hv. apply Vlay_Vent in Hv. destruct Hv as ([[k lo] t] & x & He & Hx & <- & <- & _).
+    pose proof (forest_entry H HO s _ _ _ He) as (_ & _ & E2 & L1 & _).
+    destruct (place_entry_range H HO k lo t _ x E2 Hx) as (_ & _ & A). unfold nhi in A. lia.
+  Qed.
+End LayKinds.
+
+Lemma insbit_0 q c : insbit q 0 c = 2 * q + N.b2n c.
+Proof. unfold insbit. change (2 ^ 0) with 1. change (2 ^ (0 + 1)) with 2. rewrite N.div_1_r, N.mod_1_r. lia. Qed.
+
+Section StepDel.
+  Variable H : Type.
+  Variable HO : ops H.
+  Hypothesis HOK : ops_ok HO.
+  Hypothesis Hh2 : forall x y, op_eqb HO (op_hash2 HO x y) (op_empty HO) = false.
+  Variable full : bool.
+  Variable T : N.
+  Hypothesis HT : T <= 63.
+  Variable s : slots H.
+  Hypothesis HnT : N.of_nat (length s) <= 2 ^ T.
+  Hypothesis Hnd : NoDup (live s).
+  Hypothesis Hlv : leaves_ok H HO s.
+  Variable L : list H.
+  Variable x : node H.
+  Hypothesis Hx : In x (layout HO s).
+  Hypothesis Hdel : forall y, In y (layout HO s) -> nleaf y = true ->
+    (memH HO (nhash y) L = true <-> MapMutRemove.under (coord x) (coord y)).
+  Hypothesis Hroot : nroot x = false.
+  Notation under := MapMutRemove.under.
+  Notation lay := (layout HO s).
+  Notation s' := (kill HO L s).
+  Notation lay' := (layout HO (kill HO L s)).
+  Notation rd := (nrow x).
+  Notation od := (noff x).
+  Notation Pc := (S (nrow x), noff x / 2).
+  Notation sbc := (nrow x, N.lxor (noff x) 1).
+  Notation upn := (MapMutRemove.upn H).
+  Notation nodemap := (list (N * (H * bool))).
+  Notation cachemap := (list (H * N)).
+
+  Lemma sd_n63 : N.of_nat (length s) <= 2 ^ 63.
+  Proof. assert (2 ^ T <= 2 ^ 63) by (apply UtilsGeom.pow2_le; exact HT). lia. Qed.
+  Lemma sd_Tlo : TreeRows (N.of_nat (length s)) <= T.
+  Proof. apply TreeRows_le_iff. exact HnT. Qed.
+
+  Lemma sd_valid : N.of_nat rd < T /\ od < 2 ^ (T - N.of_nat rd).
+  Proof.
+    destruct (MapMutRemove.ng_valid H HO s T sd_n63 sd_Tlo HT x Hx) as [_ Vo].
+    destruct (MapMutRemove.ng_family H HO s x Hx Hroot) as (p & _ & Hp & _ & _ & _ & _ & Ep & _).
+    destruct (MapMutRemove.ng_valid H HO s T sd_n63 sd_Tlo HT p Hp) as [Vp _].
+    injection Ep as Epr _. split; [lia|exact Vo].
+  Qed.
+
+  Definition VsubD (r : nat) (o : N) (h : H) (l : bool) : Prop := Vlay HO s r o h l /\ inSubG rd od r o.
+  Definition XnD (r : nat) (o : N) : Prop := under (r, o) Pc.
+
+  Let KIx := KI H HO s L x Hx Hdel Hroot.
+  Let Conv := kill_inner_conv H HO s L x T sd_n63 sd_Tlo HT Hnd Hx Hdel Hroot.
+
+  Lemma Vlay_node r o h l : Vlay HO s r o h l ->
+    exists y, In y lay /\ coord y = (r, o) /\ nhash y = h /\ nleaf y = l.
+  Proof. intros (y & Hy & <- & <- & <- & <-). exists y. auto. Qed.
+
+  Lemma node_Vlay (s0 : slots H) y : In y (layout HO s0) -> Vlay HO s0 (nrow y) (noff y) (nhash y) (nleaf y).
+  Proof. intros Hy. exists y. auto. Qed.
+
+  Lemma upn_Vlay y : In y lay -> under sbc (coord y) ->
+    Vlay HO s' (S (nrow y)) (upoG rd (nrow y) (noff y)) (nhash y) (nleaf y).
+  Proof.
+    intros Hy U. pose proof (proj1 (proj2 (KIx y Hy)) U) as Hin. pose proof U as [Hr _]. unfold coord in Hr. cbn [fst] in Hr.
+    exists (upn rd (Nat.eqb (S rd) (ntree x)) y). split; [exact Hin|]. cbn [MapMutRemove.upn nrow noff nhash nleaf].
+    split; [reflexivity|]. split; [|auto]. unfold upoG. f_equal. lia.
+  Qed.
+
+  Lemma D_HS_up r o h l : VsubD r o h l -> Vlay HO s' (S r) (upoG rd r o) h l.
+  Proof.
+    intros [Hv Hs]. destruct (Vlay_node _ _ _ _ Hv) as (y & Hy & Ec & <- & <-). injection Ec as <- <-.
+    apply upn_Vlay; [exact Hy|]. apply inSubG_under. exact Hs.
+  Qed.
+
+  Lemma D_HU_reg r' o' h l : Vlay HO s' r' o' h l -> inRegG rd od r' o' ->
+    exists r o, VsubD r o h l /\ r' = S r /\ o' = upoG rd r o.
+  Proof.
+    intros (y' & Hy' & <- & <- & <- & <-) Hreg. apply inRegG_under in Hreg.
+    destruct (Conv y' Hy') as [(y & Hy & -> & NP & _)|[(y & Hy & U & ->)|[U Hne]]].
+    - destruct (NP Hreg).
+    - pose proof U as [Hr _]. unfold coord in Hr. cbn [fst] in Hr.
+      exists (nrow y), (noff y). cbn [MapMutRemove.upn nrow noff nhash nleaf].
+      split; [split; [apply node_Vlay, Hy|apply inSubG_under; exact U]|].
+      split; [reflexivity|]. unfold upoG. f_equal. lia.
+    - destruct Hne. symmetry. exact (MapMutRemove.under_antisym _ _ Hreg U).
+  Qed.
+
+  Lemma D_HL_reg r o h l : Vlay HO s r o h l -> inRegG rd od r o -> VsubD r o h l \/ inDelG rd od r o \/ XnD r o.
+  Proof.
+    destruct sd_valid as [A B]. intros Hv Hreg.
+    apply (regG_cases T rd od HT A B) in Hreg as [[-> ->]|[Hs|Hd]].
+    - right. right. apply MapMutRemove.under_refl.
+    - left. split; assumption.
+    - right. left. exact Hd.
+  Qed.
+
+  Lemma D_HO_ul r o h l : Vlay HO s' r o h l -> ~ inRegG rd od r o -> Vlay HO s r o h l \/ XnD r o.
+  Proof.
+    destruct sd_valid as [A B].
+    intros (y' & Hy' & <- & <- & <- & <-) Hout.
+    destruct (Conv y' Hy') as [(y & Hy & -> & _)|[(y & Hy & U & ->)|[U Hne]]].
+    - left. apply node_Vlay, Hy.
+    - exfalso. apply Hout. cbn [MapMutRemove.upn nrow noff]. pose proof U as [Hr _]. unfold coord in Hr. cbn [fst] in Hr.
+      replace (N.of_nat (rd - nrow y)) with (N.of_nat rd - N.of_nat (nrow y)) by lia.
+      apply (upo_reg T rd od HT A B). apply inSubG_under. exact U.
+    - right. exact U.
+  Qed.
+
+  Lemma D_HO_lu r o h l : Vlay HO s r o h l -> ~ inRegG rd od r o -> ~ XnD r o -> Vlay HO s' r o h l.
+  Proof.
+    intros Hv Hout HnX. destruct (Vlay_node _ _ _ _ Hv) as (y & Hy & Ec & <- & <-). injection Ec as <- <-.
+    apply (node_Vlay s'). apply (proj1 (KIx y Hy)).
+    - intros U. apply Hout. apply inRegG_under. exact U.
+    - exact HnX.
+  Qed.
+
+  Lemma leaf_not_above y : In y lay -> nleaf y = true -> ~ under (coord y) Pc.
+  Proof.
+    intros Hy Ly U. destruct (MapMutRemove.ng_family H HO s x Hx Hroot) as (p & _ & Hp & _ & _ & Hpl & _ & Ep & _).
+    rewrite <- Ep in U. rewrite (MapMutRemove.ng_leaf_bottom H HO s T sd_n63 sd_Tlo HT y p Hy Hp Ly U) in Hpl. congruence.
+  Qed.
+
+  Lemma D_HO_leaf r o h : Vlay HO s r o h true -> ~ inRegG rd od r o -> Vlay HO s' r o h true.
+  Proof.
+    intros Hv Hout. apply D_HO_lu; [exact Hv|exact Hout|].
+    destruct (Vlay_node _ _ _ _ Hv) as (y & Hy & Ec & _ & Ly). intros U. unfold XnD in U. rewrite <- Ec in U.
+    exact (leaf_not_above y Hy Ly U).
+  Qed.
+
+  Lemma D_HDel_leaf (R : list H) r o h : (forall z, In z R -> In (Some z) s') ->
+    Vlay HO s r o h true -> inDelG rd od r o -> ~ In h R.
+  Proof.
+    intros HR Hv Hd Hin. destruct (Vlay_node _ _ _ _ Hv) as (y & Hy & Ec & Eh & Ly).
+    apply inDelG_under in Hd. rewrite <- Ec in Hd. apply (Hdel y Hy Ly) in Hd. rewrite Eh in Hd.
+    apply HR, MapMutRemove.kill_live in Hin. destruct Hin as [_ Hm]. congruence.
+  Qed.
+
+  Lemma D_HXn_inner r o h : XnD r o -> Vlay HO s r o h true -> False.
+  Proof.
+    intros U Hv. destruct (Vlay_node _ _ _ _ Hv) as (y & Hy & Ec & _ & Ly). unfold XnD in U. rewrite <- Ec in U.
+    exact (leaf_not_above y Hy Ly U).
+  Qed.
+
+  Lemma D_HXn_inner' r o h : XnD r o -> ~ inRegG rd od r o -> Vlay HO s' r o h true -> False.
+  Proof.
+    destruct sd_valid as [A B].
+    intros U Hout (y' & Hy' & Er & Eo & _ & Ly').
+    destruct (img_leaf H HO s L x T sd_n63 sd_Tlo HT Hnd Hx Hdel Hroot y' Hy' Ly') as (z & Hz & Lz & [[Us ->]|(_ & NP2 & ->)]).
+    - apply Hout. rewrite <- Er, <- Eo. cbn [MapMutRemove.upn nrow noff].
+      pose proof Us as [Hr _]. unfold coord in Hr. cbn [fst] in Hr.
+      replace (N.of_nat (rd - nrow z)) with (N.of_nat rd - N.of_nat (nrow z)) by lia.
+      apply (upo_reg T rd od HT A B). apply inSubG_under. exact Us.
+    - apply NP2. unfold XnD in U. unfold coord. rewrite Er, Eo. exact U.
+  Qed.
+
+  Lemma D_HRT r o : RTlay HO s' r o -> RTlay HO s r o.
+  Proof.
+    intros (y' & Hy' & Hr' & <- & <-).
+    destruct (MapMutRemove.kill_roots H HO L s y' Hy' Hr') as (y & Hy & Hry & Ec). injection Ec as Er Eo.
+    exists y. auto.
+  Qed.
+
+  Lemma D_HRT_sub r o : (r < rd)%nat -> inSubG rd od r o -> ~ RTlay HO s' (S r) (upoG rd r o).
+  Proof.
+    destruct sd_valid as [A B]. intros Hr Hs C. apply D_HRT in C. destruct C as (y & Hy & Hry & Er & Eo).
+    pose proof (upo_reg T rd od HT A B r o Hs) as Hreg. apply inRegG_under in Hreg.
+    assert (Ec : coord y = (S r, upoG rd r o)) by (unfold coord; congruence). rewrite <- Ec in Hreg.
+    assert (Hne : coord y <> Pc) by (rewrite Ec; intros C; injection C as C _; lia).
+    destruct (MapMutRemove.ng_family H HO s x Hx Hroot) as (p & sbn & _ & Hsbn & Hsr & _ & Es & _).
+    destruct (MapMutRemove.under_P_split _ _ _ Hreg Hne) as [Ux|Us].
+    - exact (MapMutRemove.ng_root_top H HO s T sd_n63 sd_Tlo HT x y Hx Hy Hroot Hry Ux).
+    - rewrite <- Es in Us. exact (MapMutRemove.ng_root_top H HO s T sd_n63 sd_Tlo HT sbn y Hsbn Hy Hsr Hry Us).
+  Qed.
+
+  Lemma leaves_ok_kill : leaves_ok H HO s'.
+  Proof. intros h Hh. apply MapMutRemove.kill_live in Hh as [Hh _]. exact (Hlv h Hh). Qed.
+
+  Lemma D_Hne_sub r o h l : VsubD r o h l -> op_eqb HO h (op_empty HO) = false.
+  Proof.
+    intros [Hv Hs]. destruct (Vlay_kind H HO s r o h l Hv) as [[_ Hl]|[El [->|(a & b & ->)]]].
+    - exact (proj1 (Hlv h Hl)).
+    - exfalso. subst l. destruct (Vlay_node _ _ _ _ Hv) as (y & Hy & Ec & Eh & Ly).
+      destruct (node_cases H HO s _ _ y (tnode_in H HO s y Hy)) as [r' xl xr _ _ _ _ Ehh _ _ _ _|C _ _|Hry _ _ _ _ _].
+      + rewrite Eh in Ehh. pose proof (Hh2 (nhash xl) (nhash xr)) as C. rewrite <- Ehh, (Heqb_refl H HO HOK) in C. discriminate.
+      + congruence.
+      + destruct (MapMutRemove.ng_family H HO s x Hx Hroot) as (p & sbn & _ & Hsbn & Hsr & _ & Es & _).
+        apply inSubG_under in Hs. rewrite <- Ec, <- Es in Hs.
+        exact (MapMutRemove.ng_root_top H HO s T sd_n63 sd_Tlo HT sbn y Hsbn Hy Hsr Hry Hs).
+    - apply Hh2.
+  Qed.
+
+  (** the step on the weak invariant *)
+  Theorem stepD_WInvX (R : list H) (X : nat -> N -> Prop) (nd0 : nodemap) (ca0 : cachemap) :
+    (forall z, In z R -> In (Some z) s') ->
+    (forall r o, X r o -> ~ inRegG rd od r o) ->
+    (forall r o h, X r o -> Vlay HO s' r o h true -> ~ In h R) ->
+    WInvX (Vlay HO s') (RTlay HO s') R T X nd0 ca0 ->
+    exists st1, placeEmptyRoot HO T full (gp T rd od) (nd0, ca0) = (st1, true) /\
+      WInvX (Vlay HO s) (RTlay HO s) R T (fun r o => X r o \/ XnD r o \/ inDelG rd od r o)
+            (fst (pmove H HO full T rd od st1)) (snd (pmove H HO full T rd od st1)).
+  Proof.
+    intros HR HXout HXleaf W'. destruct sd_valid as [A B].
+    apply (pullB H HO HOK full T rd od HT A B (Vlay HO s') (Vlay HO s) VsubD (RTlay HO s') (RTlay HO s) R X XnD).
+    - exact (Vlay_ok H HO s T HnT HT).
+    - intros r o h l [_ Hs]. exact Hs.
+    - exact D_HS_up.
+    - intros r o h l [Hv _]. exact Hv.
+    - exact D_HU_reg.
+    - exact D_HL_reg.
+    - exact D_HO_ul.
+    - exact D_HO_lu.
+    - exact D_HO_leaf.
+    - intros r o h. exact (D_HDel_leaf R r o h HR).
+    - exact D_HXn_inner.
+    - exact D_HXn_inner'.
+    - intros r o _. exact (D_HRT r o).
+    - intros C. left. exact (D_HRT _ _ C).
+    - exact D_HRT_sub.
+    - intros r o h Hv. exact (Vlay_sep H HO HOK s' R r o h leaves_ok_kill HR Hv).
+    - intros r o Hx'. left. exact (HXout r o Hx').
+    - exact HXleaf.
+    - exact W'.
+    - intros C. destruct (HXout _ _ C (P_reg T rd od HT A B)).
+    - exact D_Hne_sub.
+    - intros C. exact (HXout _ _ C (P_reg T rd od HT A B)).
+  Qed.
+End StepDel.
 (** Example: seven slots, the last three dead: the trees of rows 1 and 0 are empty roots; the leaf
     [Atom 2] is remembered.  Two leaves are added (the first is written over both empty roots and
     joined with the tree of row 2, the forest is re-mapped to 4 rows), and the block is undone. *)
@@ -2791,3 +3361,5 @@ Print Assumptions undo_adds_depth.
 Print Assumptions undo_adds_consistent.
 Print Assumptions modify_undo_adds.
 Print Assumptions mmu_ex_undo.
+Print Assumptions kill_inner_conv.
+Print Assumptions stepD_WInvX.
